@@ -307,6 +307,11 @@ def run_scenario(scenario, _unused):
                 keep.pop(0 if not isinstance(keep[0], list) else -1)
         elif kind == "gc":
             gc.collect()
+        elif kind == "drop":
+            # the request's objects die; later objects may be allocated at their addresses
+            req = objs = ns = None
+            slots.pop(op[1], None)
+            gc.collect()
         else:
             raise ValueError(f"unknown op {op}")
         entry["stamp"] = state_stamp()
